@@ -1,6 +1,6 @@
 package pongo2
 
-import "os"
+import "io"
 
 type tagSSINode struct {
 	filename string
@@ -40,10 +40,19 @@ func tagSSIParser(doc *Parser, start *Token, arguments *Parser) (INodeTag, *Erro
 			}
 			SSINode.template = temporaryTpl
 		} else {
-			// plaintext
-			buf, err := os.ReadFile(doc.template.set.resolveFilename(doc.template, fileToken.Val))
+			// plaintext, read through the set's loaders like every other template source
+			_, _, fd, err := doc.template.set.resolveTemplate(doc.template, fileToken.Val)
 			if err != nil {
 				return nil, (&Error{
+					Filename:  doc.template.name,
+					Sender:    "tag:ssi",
+					OrigError: err,
+				}).updateFromTokenIfNeeded(doc.template, fileToken)
+			}
+			buf, err := io.ReadAll(fd)
+			if err != nil {
+				return nil, (&Error{
+					Filename:  doc.template.name,
 					Sender:    "tag:ssi",
 					OrigError: err,
 				}).updateFromTokenIfNeeded(doc.template, fileToken)
